@@ -4,7 +4,7 @@ The same seeded histories are executed by the optimized harness (no debug assert
 checks) and by the debug harness (both on). Every operation prints one canonical, address-free
 line; the two transcripts are compared line by line. A child that dies is attributed to the case it
 announced last and the run is resumed after it."""
-import concurrent.futures as cf, hashlib, os, re, subprocess, time
+import concurrent.futures as cf, hashlib, json, os, re, subprocess, time
 
 STREAMS_Q = [("seq", "mixed", 6000, "1-2"), ("seq", "skip", 4000, "1-2"), ("seq", "drops", 4000, "1-2"), ("seq", "chunks", 3000, "1-2"), ("sched", "pulls", 3000, "2-4"), ("sched", "skip", 2000, "2-3")]
 
@@ -97,6 +97,35 @@ def run(ck, tier, seed, workdir):
     results = [{"label": "xprofile", "shard": 0, "variant": "hook-rel+hook-dbg", "cmd": [], "rc": 0, "recs": recs + [{"t": "probe"}], "wall": time.time() - t0, "status": "ok", "tool": None, "hash_file": None, "stderr_tail": ""}]
     for n in notes[:5]:
         results.append({"label": "xprofile", "shard": 0, "variant": "-", "cmd": [], "rc": 0, "recs": [{"t": "error", "error": n}], "wall": 0, "status": "ok", "tool": None, "hash_file": None, "stderr_tail": ""})
+    # the boundary grid (ranges of F6b's territory excluded) in both builds: the outcome of every case must be the same
+    def grid(binp, sh):
+        q = subprocess.run([binp, "grid", "--skip-near-max=1", "--max-print=1000000", f"--shard={sh}", "--nshards=4"], capture_output=True, text=True, timeout=900, errors="replace", env=ck.base_env())
+        rr, _ = ck.parse_lines(q.stdout)
+        probs = {r["case"]["case"]: (r["detail"], r["case"]) for r in rr if r.get("t") == "violation" and r.get("case", {}).get("case") not in (None, "zero")}
+        zero = sorted(r["detail"] + "|" + str(r.get("kind")) + "|" + str(r.get("len")) for r in rr if r.get("t") == "violation" and r.get("case", {}).get("case") == "zero")
+        summ = [r for r in rr if r.get("t") == "summary"]
+        return probs, zero, (summ[0]["cases"] if summ else 0), q.returncode
+    grid_cases = 0
+    with cf.ThreadPoolExecutor(max_workers=8) as ex:
+        gr = {(w, sh): ex.submit(grid, b, sh) for sh in range(4) for w, b in (("rel", rel), ("dbg", dbg))}
+        for sh in range(4):
+            pr, zr, nr, rcr = gr[("rel", sh)].result()
+            pd, zd, nd, rcd = gr[("dbg", sh)].result()
+            grid_cases += nr
+            if nr == 0 or nd == 0:
+                notes.append(f"grid shard {sh} produced no summary in one of the builds (rel rc={rcr}, dbg rc={rcd})")
+                continue
+            for cid in sorted(set(pr) | set(pd), key=lambda x: str(x)):
+                a, b = pr.get(cid), pd.get(cid)
+                norm = lambda t: re.sub(r"\d{6,}", "N", t[0]) if t else None
+                if norm(a) != norm(b):
+                    case = (a or b)[1]
+                    recs.append({"t": "violation", "engine": "xprofile", "rule": "XPROFILE-GRID", "props": ["C17"], "kind": case.get("kind"),
+                                 "detail": f"boundary case {json.dumps(case)}: optimized build: {a[0] if a else 'as the model'} | debug build: {b[0] if b else 'as the model'}", "replay_args": ["grid", f"--only={str(cid).split(':')[0]}"]})
+            if zr != zd:
+                recs.append({"t": "violation", "engine": "xprofile", "rule": "XPROFILE-GRID", "props": ["C17"], "kind": "zero-chunk-size",
+                             "detail": f"documented panics for chunk size 0: optimized build reports {zr or 'all present'} | debug build reports {zd or 'all present'}", "replay_args": ["grid"]})
+    results[0]["recs"] = recs + [{"t": "probe"}]
     # Miri: std preconditions (its std is built with debug assertions and checks library UB)
     seeds = 4 if tier == "quick" else 32
     mj = [ck.miri("miri/std-preconditions", "seq", "chunks", 40, "all", (0, seeds), extra=[]), ck.miri("miri/std-preconditions-drops", "seq", "drops", 30, ck.CONSUMING, (0, seeds))]
@@ -111,6 +140,7 @@ def run(ck, tier, seed, workdir):
         "rule": "seeded histories (sequential and baton-scheduled) executed by two differently compiled harness binaries; one evaluation per history compared; distinct = distinct optimized-build transcripts with at least 5 lines",
         "samples": samples or [{"note": "no sample"}],
         "compared_lines": compared_lines,
+        "grid_cases_compared_in_both_builds": grid_cases,
         "per_stream": per_stream,
         "programs": 2,
         "disagreements_checked": compared_cases,
